@@ -141,6 +141,7 @@ PROPS["C04"] = {
     "assumptions": ["idle latch/unlatch pairs bounded by MaxIdle = 1 in the generator (unbounded in MC_Codec's tiny configuration)"],
 }
 PROPS["C10"] = {
+    "technique": "TLA+ reference encoder explored by TLC below the implementation's symbol (witness = smaller valid encoding, confirmed by replay into the crate's decoder) + TLC trace validation",
     "level_text": "(A) closed forms on a fixed-seed case set of every input length: never a larger symbol than plain ASCII / plain Base256 needs, TooMuch only if those do not fit, ties resolved by list order (clauses of Trace_Enc). (B) Writer exploration (Trace_Min): for a deterministic set of ~25k short cases (thorough ~200k) TLC runs the strict reference encoder against every listed capacity strictly below the implementation's choice (all if it refused); any completed behaviour is a valid smaller encoding. Each reported violation carries the witness stream, which the implementation's own decoder must decode to the input before it is reported.",
     "level_note": "Trusts: Writer.tla is a SUBSET of the conformant encodings (strict reading of the end-of-symbol rules; with ASCII disabled ASCII data only inside the standard's fallbacks), so a witness is a real smaller encoding. Known findings are identified by the specific input+configuration (KNOWN_FINDINGS.txt).",
     # both parts use a fixed generator seed: the planner is a heuristic, so random exploration could always turn up a
@@ -158,6 +159,7 @@ PROPS["C18"] = {
     "assumptions": [],
 }
 PROPS["C19"] = {
+    "technique": "TLA+ frontier machine (TLC model checking + Apalache inductive invariant); TLC trace validation of the planner hook events",
     "level_text": "Design: MC_Planner model-checks the frontier machine of Planner.tla for 2 modes (steps bounded by a constant per iteration, |alive| <= |modes|^2), and Apalache discharges the inductive invariant `steps <= 216 it + 6 /\\ alive subset of Modes x Modes` for 6 modes and ANY number of iterations (PlannerApa.tla: Init => IndInv, IndInv /\\ Next => IndInv'). Implementation: Trace_Planner validates the hook's per-iteration events against that machine with 6 modes: every live plan steps exactly once, <= 1 switch call per plan, <= 5 spawned per call, no duplicate (start,current) pair after pruning, <= 36 alive, cumulative candidate steps <= 216 (it+1) + 6; the summed planner work of one encode_data() call (all optimize() invocations) obeys the same bound; wall time per call <= 10 s and a 20 s watchdog; a step budget in the hook stops exponential planners.",
     "level_note": "Trusts: the hook counts (cfg datamatrix_verif) are taken inside optimize() at the pruning point.",
     "mc": ["MC_Planner", "PlannerInductive"],
